@@ -663,6 +663,40 @@ pub mod pager {
         pub fn total_pages(&self) -> u64 {
             self.pager.total_allocated_pages()
         }
+        /// Allocates a B+tree page (the other `alloc` allocates an overflow page).
+        pub fn alloc_btree(&mut self) -> Result<u64, String> {
+            self.pager.allocate_page::<crate::storage::page::BtreePage>().map_err(|e| e.to_string())
+        }
+        /// Writes the `next` link of an overflow page, as chain construction does.
+        pub fn set_next(&mut self, id: u64, next: u64) -> Result<(), String> {
+            self.pager
+                .with_page_mut::<OverflowPage, _, _>(id, |p| p.metadata_mut().next = Some(next))
+                .map_err(|e| e.to_string())
+        }
+        pub fn dealloc(&mut self, id: u64, btree: bool) -> Result<(), String> {
+            if btree {
+                self.pager.dealloc_page::<crate::storage::page::BtreePage>(id).map_err(|e| e.to_string())
+            } else {
+                self.pager.dealloc_page::<OverflowPage>(id).map_err(|e| e.to_string())
+            }
+        }
+        /// `(total pages, free-list head, free-list tail, free list as linked from the head)`
+        pub fn free_list(&mut self) -> Result<(u64, Option<u64>, Option<u64>, Vec<u64>), String> {
+            let (total, head, tail) = {
+                let h = self.pager.header_unchecked();
+                (h.total_pages, h.first_free_page, h.last_free_page)
+            };
+            let mut list = Vec::new();
+            let mut cur = head;
+            while let Some(id) = cur {
+                if list.len() as u64 > total {
+                    return Err("cycle".to_string());
+                }
+                list.push(id);
+                cur = self.pager.with_page::<OverflowPage, _, _>(id, |p| p.next()).map_err(|e| e.to_string())?;
+            }
+            Ok((total, head, tail, list))
+        }
     }
 }
 
